@@ -102,7 +102,10 @@ def m_splitn_next(ip, callee, args):
     it.fields[0].v = rest; it.fields[1].v = n - 1
     return opt_some(head)
 
-def m_to_string(ip, callee, args): return val_of_strlike(args[0])
+def m_to_string(ip, callee, args):
+    v = val_of_strlike(args[0])
+    if isinstance(v, (str,)) or (isinstance(v, Term) and v.sort == 'String'): return v
+    return display_value(ip, v)
 def m_unwrap(ip, callee, args):
     a = args[0]
     if a.variant in ('Some', 'Ok'): return a.fields[0].v
@@ -178,7 +181,25 @@ def m_generic_eq(ip, callee, args):
     a, b = args[0], args[1]
     while isinstance(a, Ref): a = a.cell.v
     while isinstance(b, Ref): b = b.cell.v
-    if isinstance(a, (str, Term)) or isinstance(b, (str, Term)): return m_str_eq(ip, callee, [a, b])
+    if not isinstance(a, Agg) and not isinstance(b, Agg) and (isinstance(a, (str, Term)) or isinstance(b, (str, Term))):
+        if isinstance(a, Term) and a.sort != 'String': return ip.binop(None, 'Eq', a, b, None)
+        if isinstance(b, Term) and b.sort != 'String': return ip.binop(None, 'Eq', a, b, None)
+        return m_str_eq(ip, callee, [a, b])
+    if isinstance(a, Agg) and not isinstance(b, Agg):
+        key = re.sub(r"&(?:'\w+ )?(?:mut )?", '', strip_generics(callee)).replace('::ne', '::eq')
+        d = ip.resolve(key)
+        if d is not None: return ip.call_fn(d, [Ref(Cell(a)), Ref(Cell(b))])
+        raise Unsupported('eq ' + callee + ' a=' + repr(a)[:200] + ' b=' + repr(b)[:80])
+    if isinstance(a, Agg) and isinstance(b, Agg):
+        d = ip.resolve('<%s as PartialEq>::eq' % a.ty)
+        if d is not None: return ip.call_fn(d, [Ref(Cell(a)), Ref(Cell(b))])
+        if a.variant != b.variant or len(a.fields) != len(b.fields): return False
+        res = True
+        for x, y in zip(a.fields, b.fields):
+            e = m_generic_eq(ip, callee, [x.v, y.v])
+            if e is False: return False
+            if e is not True: res = e if res is True else Term('(and %s %s)' % (res.s, e.s), 'Bool')
+        return res
     return a == b
 
 def install(ip):
@@ -305,3 +326,241 @@ def install3(ip):
         (re.compile(r'^<[iu](\d+|size) as ToString>::to_string$'), m_i32_to_string),
         (re.compile(r'^Option::is_some$'), m_option_is_some), (re.compile(r'^Option::is_none$'), m_option_is_none),
     ] + ip.pattern_models
+
+# ---- fourth batch: fmt
+def decode_bytes_literal(s):
+    # s like b"\nreplicate \xc0\x01 \xc0\x00"
+    body = s[2:-1]; out = bytearray(); i = 0
+    while i < len(body):
+        c = body[i]
+        if c == '\\':
+            n = body[i+1]
+            if n == 'x': out.append(int(body[i+2:i+4], 16)); i += 4
+            elif n == 'n': out.append(10); i += 2
+            elif n == 't': out.append(9); i += 2
+            elif n == 'r': out.append(13); i += 2
+            elif n == '0': out.append(0); i += 2
+            elif n in '\\"\'': out.append(ord(n)); i += 2
+            else: raise Unsupported("escape " + body[i:i+4])
+        else:
+            out.extend(c.encode()); i += 1
+    return bytes(out)
+def display_value(ip, v):
+    v = unref(v)
+    if isinstance(v, (str, Term)) and not (isinstance(v, Term) and v.sort != 'String'): return v
+    if isinstance(v, bool): return "true" if v else "false"
+    if isinstance(v, int): return str(v)
+    if isinstance(v, Term) and v.sort == 'Int': return m_i32_to_string(ip, '', [v])
+    if isinstance(v, Term) and v.sort == 'Bool': return T('(ite %s "true" "false")', 'String', v.s)
+    if isinstance(v, Agg):
+        d = ip.resolve("<%s as Display>::fmt" % v.ty)
+        if d is None: raise Unsupported("Display for " + v.ty)
+        f = Agg('Formatter', None, [Cell("")])
+        ip.call_fn(d, [Ref(Cell(v)), Ref(Cell(f))])
+        return f.fields[0].v
+    raise Unsupported("display of %r" % (v,))
+def sconcat(parts):
+    out = []
+    for p in parts:
+        if out and isinstance(out[-1], str) and isinstance(p, str): out[-1] += p
+        else: out.append(p)
+    out = [p for p in out if p != ""]
+    if not out: return ""
+    if len(out) == 1: return out[0]
+    return T("(str.++ %s)", 'String', " ".join(smt_str(p) for p in out))
+def format_arguments(ip, a):
+    a = unref(a)
+    if len(a.fields) == 1: return val_of_strlike(a.fields[0].v)   # from_str
+    tmpl = a.fields[0].v; args = unref(a.fields[1].v)
+    if isinstance(tmpl, Ref): tmpl = unref(tmpl)
+    b = decode_bytes_literal(tmpl); i = 0; nxt = 0; parts = []
+    while True:
+        n = b[i]; i += 1
+        if n == 0: break
+        if n < 0x80: parts.append(b[i:i+n].decode()); i += n
+        elif n == 0x80:
+            ln = b[i] | (b[i+1] << 8); i += 2; parts.append(b[i:i+ln].decode()); i += ln
+        else:
+            if n & 0x01: i += 4
+            if n & 0x02: i += 2
+            if n & 0x04: i += 2
+            idx = nxt
+            if n & 0x08: idx = b[i] | (b[i+1] << 8); i += 2
+            nxt = idx + 1
+            arg = args[idx].v
+            parts.append(display_value(ip, arg.fields[0].v))
+    return sconcat(parts)
+def m_format2(ip, c, a): return format_arguments(ip, a[0])
+def m_args_to_string(ip, c, a): return format_arguments(ip, a[0])
+def m_formatter_write_fmt(ip, c, a):
+    f = unref(a[0]); f.fields[0].v = sconcat([f.fields[0].v, format_arguments(ip, a[1])]); return res_ok(UNIT)
+def m_formatter_write_str(ip, c, a):
+    f = unref(a[0]); f.fields[0].v = sconcat([f.fields[0].v, val_of_strlike(a[1])]); return res_ok(UNIT)
+def m_concat(ip, c, a):
+    lst = unref(a[0]); items = lst if isinstance(lst, list) else lst.fields[0].v
+    return sconcat([val_of_strlike(x.v) for x in items])
+def m_mem_forget(ip, c, a): return UNIT
+def m_trim(ip, c, a):
+    s = val_of_strlike(a[0])
+    if not is_sym(s): return s.strip()
+    raise Unsupported("trim of symbolic string")
+def m_as_cast_f64(ip, c, a): return float(a[0])
+def install4(ip):
+    ip.models['format'] = m_format2
+    ip.pattern_models = [
+        (re.compile(r'^<Arguments<.*> as ToString>::to_string$'), m_args_to_string),
+        (re.compile(r'^Formatter::write_fmt$'), m_formatter_write_fmt), (re.compile(r'^Formatter::write_str$'), m_formatter_write_str),
+        (re.compile(r'impl \[.*\]>::concat$'), m_concat), (re.compile(r'^std::mem::forget$'), m_mem_forget),
+        (re.compile(r'impl str>::trim$'), m_trim),
+    ] + ip.pattern_models
+
+# ---- fifth batch: iterators
+def m_into_iter(ip, c, a):
+    v = a[0]
+    if isinstance(v, Ref):
+        t = unref(v)
+        if isinstance(t, Agg) and t.ty == 'Vec': return Agg('SliceIter', None, [Cell(t.fields[0].v), Cell(0)])
+        if isinstance(t, list): return Agg('SliceIter', None, [Cell(t), Cell(0)])
+        if isinstance(t, Agg) and t.ty == 'HashMap':
+            d = ip.resolve("vstd::vmap::HashMap::iter"); return ip.call_fn(d, [v])
+        return v
+    if isinstance(v, Agg) and v.ty == 'Vec': return Agg('VecIntoIter', None, [Cell(v.fields[0].v), Cell(0)])
+    if isinstance(v, list): return Agg('VecIntoIter', None, [Cell(v), Cell(0)])
+    return v
+def m_vec_into_iter_next(ip, c, a):
+    it = unref(a[0]); lst = it.fields[0].v; i = it.fields[1].v
+    if i >= len(lst): return OPT_NONE()
+    it.fields[1].v = i + 1; return opt_some(lst[i].v)
+def iter_next(ip, it):
+    """generic next on any iterator value (Ref to it)"""
+    t = unref(it)
+    if t.ty == 'SliceIter': return m_slice_iter_next(ip, '', [it])
+    if t.ty == 'VecIntoIter': return m_vec_into_iter_next(ip, '', [it])
+    if t.ty == 'Map':
+        r = iter_next(ip, Ref(t.fields[0]))
+        if r.variant == 'None': return r
+        return opt_some(ip.call_value(t.fields[1].v, [r.fields[0].v]))
+    if t.ty == 'Filter':
+        while True:
+            r = iter_next(ip, Ref(t.fields[0]))
+            if r.variant == 'None': return r
+            keep = ip.call_value(t.fields[1].v, [Ref(Cell(r.fields[0].v))])
+            if ip.branch(keep): return r
+    if t.ty == 'Enumerate':
+        r = iter_next(ip, Ref(t.fields[0]))
+        if r.variant == 'None': return r
+        i = t.fields[1].v; t.fields[1].v = i + 1
+        return opt_some(Agg('tuple', None, [Cell(i), Cell(r.fields[0].v)]))
+    d = ip.resolve("<%s as Iterator>::next" % t.ty)
+    if d: return ip.call_fn(d, [it])
+    raise Unsupported("next on " + t.ty)
+def m_iter_next(ip, c, a): return iter_next(ip, a[0])
+def m_iter_map(ip, c, a): return Agg('Map', None, [Cell(a[0]), Cell(a[1])])
+def m_iter_filter(ip, c, a): return Agg('Filter', None, [Cell(a[0]), Cell(a[1])])
+def m_iter_enumerate(ip, c, a): return Agg('Enumerate', None, [Cell(a[0]), Cell(0)])
+def m_iter_collect(ip, c, a):
+    it = Ref(Cell(a[0])); out = []
+    while True:
+        r = iter_next(ip, it)
+        if r.variant == 'None': break
+        out.append(Cell(r.fields[0].v))
+    if 'Vec<' in c or 'collect::<Vec' in c: return Agg('Vec', None, [Cell(out)])
+    raise Unsupported("collect into " + c)
+def m_iter_fold(ip, c, a):
+    it = Ref(Cell(a[0])); acc = a[1]
+    while True:
+        r = iter_next(ip, it)
+        if r.variant == 'None': return acc
+        acc = ip.call_value(a[2], [acc, r.fields[0].v])
+def m_iter_any(ip, c, a):
+    it = a[0] if isinstance(a[0], Ref) else Ref(Cell(a[0]))
+    while True:
+        r = iter_next(ip, it)
+        if r.variant == 'None': return False
+        if ip.branch(ip.call_value(a[1], [r.fields[0].v])): return True
+def m_iter_for_each(ip, c, a):
+    it = Ref(Cell(a[0]))
+    while True:
+        r = iter_next(ip, it)
+        if r.variant == 'None': return UNIT
+        ip.call_value(a[1], [r.fields[0].v])
+def m_vec_iter(ip, c, a): return m_slice_iter(ip, c, a)
+def install5(ip):
+    ip.pattern_models = [
+        (re.compile(r' as IntoIterator>::into_iter$'), m_into_iter),
+        (re.compile(r'^<std::vec::IntoIter<.*> as Iterator>::next$'), m_vec_into_iter_next),
+        (re.compile(r'^<(Map|Filter|Enumerate)<.*> as Iterator>::next$'), m_iter_next),
+        (re.compile(r' as Iterator>::map$'), m_iter_map), (re.compile(r' as Iterator>::filter$'), m_iter_filter),
+        (re.compile(r' as Iterator>::enumerate$'), m_iter_enumerate), (re.compile(r' as Iterator>::collect$'), m_iter_collect),
+        (re.compile(r' as Iterator>::fold$'), m_iter_fold), (re.compile(r' as Iterator>::any$'), m_iter_any),
+        (re.compile(r' as Iterator>::for_each$'), m_iter_for_each),
+    ] + ip.pattern_models
+
+def install6(ip):
+    ident = lambda ip, c, a: a[0]
+    ip.pattern_models = [
+        (re.compile(r'impl f64>::(to_bits|from_bits)$'), ident),
+    ] + ip.pattern_models
+
+# ---- sixth batch
+def m_vec_sort(ip, c, a):
+    lst = vec_of(a[0]) ; items = lst if isinstance(lst, list) else lst.fields[0].v
+    vals = [x.v for x in items]
+    if any(is_sym(v) for v in vals): raise Unsupported("sort of symbolic strings")
+    vals.sort()
+    for cell, v in zip(items, vals): cell.v = v
+    return UNIT
+def m_vec_join(ip, c, a):
+    lst = vec_of(a[0]); items = lst if isinstance(lst, list) else lst.fields[0].v
+    sep = val_of_strlike(a[1]); parts = []
+    for i, x in enumerate(items):
+        if i: parts.append(sep)
+        parts.append(val_of_strlike(x.v))
+    return sconcat(parts)
+def m_vec_last(ip, c, a):
+    lst = vec_of(a[0]); items = lst if isinstance(lst, list) else lst.fields[0].v
+    return opt_some(Ref(items[-1])) if items else OPT_NONE()
+def m_vec_is_empty(ip, c, a):
+    lst = vec_of(a[0]); items = lst if isinstance(lst, list) else lst.fields[0].v
+    return len(items) == 0
+def m_vec_pop(ip, c, a):
+    items = vec_of(a[0]).fields[0].v
+    return opt_some(items.pop().v) if items else OPT_NONE()
+def m_atomic_fetch_add(ip, c, a):
+    u = unref(a[0]); old = u.fields[0].v; u.fields[0].v = old + a[1]; return old
+def m_atomic_get_mut(ip, c, a): return Ref(unref(a[0]).fields[0])
+def m_string_add(ip, c, a): return sconcat([val_of_strlike(a[0]), val_of_strlike(a[1])])
+def m_opaque(ip, c, a): return Agg('Opaque', None, [])
+def m_const(v): return lambda ip, c, a: v
+def m_result_is_ok(ip, c, a): return unref(a[0]).variant == 'Ok'
+def m_option_as_ref(ip, c, a):
+    o = unref(a[0])
+    return opt_some(Ref(o.fields[0])) if o.variant == 'Some' else OPT_NONE()
+def m_option_as_deref(ip, c, a):
+    o = unref(a[0])
+    return opt_some(val_of_strlike(o.fields[0].v)) if o.variant == 'Some' else OPT_NONE()
+def install7(ip):
+    ip.pattern_models = [
+        (re.compile(r'^DefaultHasher::new$'), m_opaque), (re.compile(r'^thread_id::get$'), m_const(1)),
+        (re.compile(r'^std::any::type_name$|^type_name$'), m_const("")),
+        (re.compile(r'^<String as Add<&str>>::add$'), m_string_add),
+        (re.compile(r'^Vec::with_capacity$'), m_vec_new), (re.compile(r'impl \[.*\]>::sort$'), m_vec_sort),
+        (re.compile(r'impl \[.*\]>::join$'), m_vec_join), (re.compile(r'impl \[.*\]>::last$'), m_vec_last),
+        (re.compile(r'^Vec::is_empty$|impl \[.*\]>::is_empty$'), m_vec_is_empty), (re.compile(r'^Vec::pop$'), m_vec_pop),
+        (re.compile(r'impl \[.*\]>::len$'), m_vec_len),
+        (re.compile(r'^Atomic::fetch_add$'), m_atomic_fetch_add), (re.compile(r'^Atomic::get_mut$'), m_atomic_get_mut),
+        (re.compile(r'^Result::is_ok$'), m_result_is_ok), (re.compile(r'^Option::as_ref$'), m_option_as_ref), (re.compile(r'^Option::as_deref$'), m_option_as_deref),
+    ] + ip.pattern_models
+
+def m_dyn_fn_call(ip, c, a):
+    f = unref(a[0]); args = [x.v for x in a[1].fields] if isinstance(a[1], Agg) else []
+    if isinstance(f, Closure):
+        name = ip.closure_fns[f.name]
+        return ip.call_fn(name, [Ref(Cell(f))] + args)
+    return ip.do_call(f.name, args)
+def install8(ip):
+    ip.pattern_models = [(re.compile(r'^<dyn (for<.*?> )?Fn.* as Fn(Mut|Once)?<.*>>::call(_mut|_once)?$'), m_dyn_fn_call)] + ip.pattern_models
+
+def m_arc_try_unwrap(ip, c, a): return res_ok(a[0].fields[0].v)
+def install9(ip):
+    ip.pattern_models = [(re.compile(r'^Arc::try_unwrap$'), m_arc_try_unwrap)] + ip.pattern_models
